@@ -470,6 +470,14 @@ class WebsocketSession(object):
             selector = self._selector_cls(sock)
             log.debug('%r created', selector)
             while not state.closed:
+                if self._sock is None:
+                    # The session was closed while an event was handled
+                    # (WebSocket.__exit__ or another thread); the selector
+                    # knows the socket by a descriptor that is no longer
+                    # valid, or belongs to a different socket by now.
+                    if not (state.closing or state.closed):
+                        self._socket_fail('connection closed')
+                    break
                 readable, max_bytes = selector.wait(self.BUFFER_SIZE, poll)
                 # A timeout only counts once what has been received is
                 # consumed, the answer it waits for may be part of it
